@@ -2320,7 +2320,9 @@ func (k *Kernel) loadInitialVotingView(ctx context.Context, s *kState) error {
 		vs = k.initialValSet
 	} else {
 		// During initialization, we have set the committing block on the kState value.
-		vs = s.CommittingHeader.ValidatorSet
+		// The voting height is one past the committing header,
+		// so it uses the validator set that header names as next.
+		vs = s.CommittingHeader.NextValidatorSet
 	}
 
 	if len(vs.Validators) == 0 {
